@@ -277,9 +277,12 @@ def gen_l1_mask(t, fam, sform, shape, m0, m1, tier):
     b.append("assert!(%s, \"VP:wrong-shape\");" % shape_ok)
     b.append("if rows * cols == %d { assert!(%s, \"VP:wrong-element\"); }" % (len(want), " && ".join(eq_expr(t, "rd(%d)" % k, w) for k, w in enumerate(want))))
     b.append("{ let s_ = sc.borrow(); assert!(%s, \"VP:source-modified\"); }" % " && ".join(eq_expr(t, "s_[%d]" % q, "src[%d]" % q) for q in range(N)))
+    # C19 rider: a second solve() (what a re-evaluation step does) gives the same value - the mask kernels resize their output
     b.append("f.solve(); let v2 = f.out();")
+    b.append("{ let v = v2; " + extract(t, "").replace("\n    ", " ") + " assert!(%s, \"VP:second-solve-differs\"); if rows * cols == %d { assert!(%s, \"VP:second-solve-differs\"); } forget(v); }"
+             % (shape_ok, len(want), " && ".join(eq_expr(t, "rd(%d)" % k, w) for k, w in enumerate(want))))
     b.append("kani::cover!(true, \"VP:reached\");")
-    b.append("forget(v); forget(v2); forget(f); forget(out); forget(sc);")
+    b.append("forget(v); forget(f); forget(out); forget(sc);")
     tag = "%s%s" % (("r" + mask_txt(m0)) if m0 is not None else "", ("c" + mask_txt(m1)) if m1 is not None else "")
     h = H("c03_l1_%s_%s_%s%dx%d_%s" % (fam.lower(), t.lower(), sform.lower(), R, C, tag), "    " + "\n    ".join(x for x in b if x), WHERE, domain="accept",
           key="L1/Access%s/%s/%s/%s" % (fam, t, sform, tag),
@@ -492,11 +495,13 @@ def plan(tier, seed):
         "extracted": extracted,
         "explanation": "Kani/CBMC over the real access dispatch functions (impl_access_*_fxn / matrix_access_*_fxn) and the Access* kernels they "
                        "build, in the harness copy of mech-interpreter under a per-kind feature slice, with kissat; source elements, index "
-                       "values, index vectors and mask bits symbolic",
+                       "values, index vectors and mask bits symbolic; plus struct-level (L1) harnesses for every Access1D*/Access2D* family built as its "
+                       "dispatch arm builds it (index vectors symbolic, masks concrete), against the 1-based column-major reference model",
         "bounds": "sources 1x3, 3x1, 2x2, 2x3; index vectors of length 2, masks of length dim-1/dim/dim+1, at most %d selected positions "
                   "per dimension; element kinds f64 (u8 for scalar/vector forms, thorough)" % MAXSEL,
-        "outside": ["logical-mask reads that are accepted, and every 2-D form with a mask: no verdict (see excluded_no_verdict); only the rejection of 1-D masks of "
-                    "the wrong length is decided", "subscript(): syntax -> index Values (as_index conversions, range evaluation)", "the `Vec<Value>` parameter of the dispatch functions: their bodies are copied verbatim with `ixes: &[Value]` (see extract_dispatch_fn)", "sources larger than 2x3",
+        "outside": ["logical-mask reads with a SYMBOLIC mask that are accepted through the dispatch functions: no verdict (result length = symbolic number of "
+                    "true bits; see excluded_no_verdict).  Accepted mask reads are decided at struct level (L1/Access*: 1-D and every 2-D mask form) for "
+                    "CONCRETE masks with symbolic source elements; the rejection of 1-D masks of the wrong length is decided at dispatch level", "subscript(): syntax -> index Values (as_index conversions, range evaluation)", "the `Vec<Value>` parameter of the dispatch functions: their bodies are copied verbatim with `ixes: &[Value]` (see extract_dispatch_fn)", "sources larger than 2x3",
                     "swizzle / dot access / tables / maps / tuples", "fixed-size storage forms", "the NativeFunctionCompiler wrappers"],
         "caps": {"quick_timeout": 900, "thorough_timeout": 2400, "heavy_jobs": 6, "heavy_rss_gb": 9},
     }
